@@ -155,6 +155,28 @@ def run_async_client(rng, peer, discover, oids, drop=()):
     return script, r, results
 
 
+def client_cases(rng, n, lossy=True):
+    """run the real sync / async clients against a conforming agent in random configurations (engine id given /
+    None / b"", every digest x cipher x key type, optionally with lost discovery probes); yields
+    (key, script, outcome, judge-reason-or-None)"""
+    for k in range(n):
+        auth = [0, 1, 2][k % 3]
+        priv = rng.choice([0, 1, 2]) if auth else 0
+        discover = k % 2 == 0
+        peer = sessions.rand_v3_peer(rng, auth=auth, priv=priv)
+        mode = "sync" if (k // 2) % 2 == 0 else "async"
+        oids = [o for o in (sessions.rand_oid_text(rng) for _ in range(rng.randrange(1, 4))) if o.count(".") >= 1] or ["1.3.6.1"]
+        drop = () if (k % 3 or not lossy) else rng.choice([(0,), (1,), (0, 1), (0, 2)])
+        script, r, results = (run_sync_client if mode == "sync" else run_async_client)(rng, peer, discover, oids, drop)
+        key = f"{mode}:{peer.label}:{'discovered' if discover else 'configured'}" + (f":lost{list(drop)}" if drop else "")
+        why = None
+        if r[0] != "ok":
+            why = f"the client failed with {r[1]} against a conforming agent"
+        else:
+            why = judge(script, None if discover else peer.state.engine_id, results)
+        yield key, script, r, why
+
+
 def refresh_trace(mode, peer, given, outcomes, ncalls):
     """drive refresh() of the real client `ncalls` times against an agent that answers the k-th probe iff
     outcomes[k]; returns ([(probes seen during the call, raised)], deferred?, to_refresh?)"""
